@@ -67,7 +67,7 @@ pub struct Engine {
     pub states_seen: u64,
 }
 
-const PROPS: [&str; 5] = ["C01", "C02", "C09", "C10", "C11"];
+const PROPS: [&str; 6] = ["C01", "C02", "C09", "C10", "C11", "C20"];
 
 fn sz_name(sz: u8) -> &'static str {
     ["4KiB", "2MiB", "1GiB"][sz as usize]
@@ -299,6 +299,9 @@ impl Engine {
         }
         let s = sim();
         let mut clean = true;
+        if let Impl::Recursive(ri) = self.cfg.imp {
+            clean &= self.check_window(st, ai, &op, &act, ri as u64);
+        }
         // ---- C09: stray accesses
         let nstray = s.nstray;
         if nstray > 0 {
@@ -454,6 +457,60 @@ impl Engine {
         let mut ns = self.snapshot(r1, ast.free, st.dev + cost, hist);
         ns.ood = true;
         Some(ns)
+    }
+
+    /// C20 (dynamic part): every recursive-window page the mapper touched must be the recursive address of a table the
+    /// operation concerns: (R,R,R,p4), (R,R,p4,p3), (R,p4,p3,p2) of the page for page operations; for clean-up exactly the
+    /// tables of the hierarchy that overlap the range.
+    fn check_window(&mut self, st: &State, ai: usize, op: &str, act: &Act, r: u64) -> bool {
+        let s = sim();
+        let touched: Vec<u64> = s.last_win[..s.nlast].to_vec();
+        let va4 = |a: u64, b: u64, c: u64, d: u64| sext(a << 39 | b << 30 | c << 21 | d << 12);
+        let ix = |va: u64, l: u8| idx(va, l) as u64;
+        let win_of = |level: u8, base: u64| -> u64 {
+            match level {
+                3 => va4(r, r, r, ix(base, 4)),
+                2 => va4(r, r, ix(base, 4), ix(base, 3)),
+                _ => va4(r, ix(base, 4), ix(base, 3), ix(base, 2)),
+            }
+        };
+        let rep = self.reps.get_mut("C20").unwrap();
+        rep.evals += touched.len() as u64;
+        rep.nontrivial += touched.len() as u64;
+        let mut ok = true;
+        match act_page(act, &self.al) {
+            Some((sz, va)) => {
+                let allowed: Vec<u64> = (leaf_level(sz)..=3).map(|l| win_of(l, va)).collect();
+                for t in &touched {
+                    if !allowed.contains(t) {
+                        self.viol("C20", &format!("{}|touches-a-recursive-window-address-that-is-not-one-of-the-page's-tables", op), &st.hist, Some(ai), &format!("touched {:#x}; allowed {:x?}", t, allowed));
+                        ok = false;
+                        break;
+                    }
+                }
+            }
+            None => {
+                let (rs, re) = match act {
+                    Act::CleanRange { r } => self.al.ranges[*r as usize],
+                    _ => (0, 0xffff_ffff_ffff_f000),
+                };
+                if rs <= re {
+                    let rend = re.wrapping_add(0xfff);
+                    let mut expected: Vec<u64> = st.r1.tables.iter().filter(|(&(l, b), _)| b <= rend && b.wrapping_add(table_span(l) - 1) >= rs).map(|(&(l, b), _)| win_of(l, b)).collect();
+                    expected.sort_unstable();
+                    let mut got = touched.clone();
+                    got.sort_unstable();
+                    got.dedup();
+                    if got != expected {
+                        let missing: Vec<&u64> = expected.iter().filter(|x| !got.contains(x)).collect();
+                        let extra: Vec<&u64> = got.iter().filter(|x| !expected.contains(x)).collect();
+                        self.viol("C20", &format!("{}|does-not-reach-each-table-in-the-range-through-its-own-recursive-address", op), &st.hist, Some(ai), &format!("not visited {:x?}; visited but not a table overlapping the range {:x?}", missing, extra));
+                        ok = false;
+                    }
+                }
+            }
+        }
+        ok
     }
 
     fn check_op(&mut self, st: &State, ai: usize, op: &str, act: &Act, out: &Outcome, tree: &Tree, r1: &mut R1, before: &Tree) -> bool {
